@@ -53,6 +53,10 @@ func runC01(c *core.Ctx) {
 	c01R8(c)
 	c01R9(c)
 	c01R10(c)
+	// R11: the per-subscriber bookkeeping that gates Trie.Unsubscribe (sub.go Counters, an anchor of
+	// this property): an entry lost from a collision chain is a filter that is never removed from
+	// the trie again ("when every subscription has been removed the index is empty again").
+	foldKeyRule(c, "C01.R11", 5)
 }
 
 // sizeZeroPred: subs.Size()==0 of node base
